@@ -392,7 +392,8 @@ fn build_cases(quick: bool) -> Vec<Case> {
                     des.dedup();
                     for a in [0x00u8, 0xFF, 0x55] {
                         for &de in des.iter() {
-                            let ixs: &[u16] = if quick { &[0x9000, 0x3FFE] } else { &[0x9000, 0x3FFE, 0xFFFE, 0x5AFF] };
+                            // quick: the wrap over the top of memory only with the short blocks
+                            let ixs: &[u16] = if !quick { &[0x9000, 0x3FFE, 0xFFFE, 0x5AFF] } else if len <= 19 { &[0x9000, 0x3FFE, 0xFFFE] } else { &[0x9000, 0x3FFE] };
                             for &ix in ixs {
                                 // LOAD
                                 v.push(Case {
